@@ -2,7 +2,7 @@
    "run loader i to completion") interleaved with checkpoints carrying what was observed on the real
    store at that moment.  Definitions only. *)
 From Coq Require Import String List Bool Arith.
-From Hpotk Require Import Base.Result Base.Str Base.Emit Store.Model.
+From Hpotk Require Import Base.Result Base.Str Base.Emit Store.Model Store.Paths.
 Import ListNotations.
 Open Scope list_scope.
 
@@ -10,10 +10,26 @@ Open Scope list_scope.
    fetch log (oldest first), per loader: 0 running | 1 returned the right ontology | 2 raised | 3 killed | 4 returned something else *)
 Record obs := mkObs { ob_finals : list (nat * string); ob_leftovers : nat; ob_fetches : list (nat * string); ob_outcomes : list nat }.
 
+(* the observed state read off the RAW directory listing (names relative to the store directory, each with the
+   (type, release) whose served bytes the file holds, if any): the names are classified inside Coq by Store.Paths *)
+Definition listing : Type := list (string * option (nat * string)).
+Definition listing_finals (l : listing) : list (nat * string) :=
+  flat_map (fun e => match classify (fst e) with CFinal t r => [(t, r)] | _ => [] end) l.
+Definition listing_leftovers (l : listing) : nat :=
+  length (filter (fun e => match classify (fst e) with CFinal _ _ => false | _ => true end) l).
+(* every file at a cache location holds exactly what the remote serves for that (type, release) *)
+Definition listing_complete (l : listing) : bool :=
+  forallb (fun e => match classify (fst e) with
+                    | CFinal t r => match snd e with Some (t', r') => Nat.eqb t t' && seqb r r' | None => false end
+                    | _ => true
+                    end) l.
+
 Inductive cmd :=
 | CAct (a : action)
 | CFinish (i : nat)            (* loader i runs alone to the end of its load *)
-| CCheck (o : obs).
+| CCheck (o : obs)
+| CListing (l : listing) (fetches : list (nat * string)) (outcomes : list nat)   (* as CCheck, from the raw listing *)
+| CResolve (t : nat) (release : string) (relpath : string).                        (* resolve_store_path(t, release) relative to the store directory *)
 
 Definition tr_ltb (a b : nat * string) : bool := Nat.ltb (fst a) (fst b) || (Nat.eqb (fst a) (fst b) && sltb (snd a) (snd b)).
 Fixpoint tr_ins (x : nat * string) (l : list (nat * string)) : list (nat * string) :=
@@ -54,6 +70,9 @@ Fixpoint exec (w : world) (cs : list cmd) : bool :=
   | CAct a :: r => exec (do_action remote w a) r
   | CFinish i :: r => exec (run remote w (repeat (Step i) 8)) r
   | CCheck o :: r => obs_eqb (observe w) o && all_complete w && exec w r
+  | CListing l f o :: r =>
+      obs_eqb (observe w) (mkObs (tr_sort (listing_finals l)) (listing_leftovers l) f o) && listing_complete l && all_complete w && exec w r
+  | CResolve t rel p :: r => seqb (final_name t rel) p && exec w r
   end.
 
 Fixpoint final_world (w : world) (cs : list cmd) : world :=
@@ -61,7 +80,7 @@ Fixpoint final_world (w : world) (cs : list cmd) : world :=
   | [] => w
   | CAct a :: r => final_world (do_action remote w a) r
   | CFinish i :: r => final_world (run remote w (repeat (Step i) 8)) r
-  | CCheck _ :: r => final_world w r
+  | CCheck _ :: r | CListing _ _ _ :: r | CResolve _ _ _ :: r => final_world w r
   end.
 End Corr.
 
